@@ -310,9 +310,11 @@ Print Assumptions c19_checker_exact_clauses.
 
 (* per result set: the checker reports nothing iff the reported rows are, in
    order, exactly the recorded measure names (sorted), each accepted by the
-   per-measure comparison against the exact statistics of its recorded values *)
-Theorem c19_checker_rows : forall kc r o,
-  rows_check kc (keys_of r) r o = [] <-> Forall2 (row_ok r) (keys_of r) o.
+   per-measure comparison against the exact statistics of its recorded values
+   ([cnt] = true: count-only comparison, used where the harness cannot know the
+   recorded values: CPU times sent by TimeMeasure.Record) *)
+Theorem c19_checker_rows : forall cnt kc r o,
+  rows_check cnt kc (keys_of r) r o = [] <-> Forall2 (row_ok cnt r) (keys_of r) o.
 Proof. exact rows_check_keys_of. Qed.
 Print Assumptions c19_checker_rows.
 
